@@ -159,6 +159,11 @@ class MatEngine:
             if p.endswith('utils::matmul') or p.endswith('utils::matmul_blocked'):
                 return self.call_matmul(f, t, ix, leafnames, depth)
             if p.endswith('utils::vandermonde') and len(t[2]) == 2:
+                # the arguments (in the frame of the body being evaluated, helpers are inlined with their arguments substituted) are kept
+                # for the caller to judge: which array the design matrix is built from, and with how many columns
+                if not hasattr(self, 'vander_seen'):
+                    self.vander_seen = []
+                self.vander_seen.append((t[2][0], strip_casts(t[2][1])))
                 return (('M', 'V'), ('len', t[2][0]), strip_casts(t[2][1]))
             if p.endswith('utils::xtx') and len(t[2]) == 2:
                 mv = self.mat(f, t[2][0], ix, leafnames, depth)
